@@ -11,6 +11,7 @@ from fractions import Fraction
 import core
 import corecheck
 import gen
+import residuegen
 from common import build_bins, child_env, load_known, run_harness, BUILD
 
 SITE_NAMES = {1: "GEZ + GEZ", 2: "GEZ * GEZ", 3: "GEZ.div(Pos)", 4: "Pos * Pos", 5: "Pos / Pos", 6: "Neg * Neg",
@@ -18,19 +19,20 @@ SITE_NAMES = {1: "GEZ + GEZ", 2: "GEZ * GEZ", 3: "GEZ.div(Pos)", 4: "Pos * Pos",
               11: "LessEqualZeroDecimal::try_from(effective-cent value) (delta_list.rs; math.rs:93 before the fix 4125b76)",
               12: "NegDecimal::try_from(calculated sfl) (matched, not unwrapped, since 4125b76: unused)",
               13: "PosDecimal::try_from(affiliate ratio)", 14: "SflaTxSpecifics::total_amount", 15: "split balance",
-              20: "set_latest_post_status acb assert", 21: "set_latest_post_status all-affiliate assert (portfolio_status.rs:100)"}
+              16: "Buy arm: GreaterEqualZeroDecimal::try_from(all_affiliates_share_balance_after(..)) (delta_list.rs, since the fix of split-residue-assert)",
+              20: "set_latest_post_status acb assert", 21: "set_latest_post_status all-affiliate assert (portfolio_status.rs:100 before the fix of split-residue-assert)"}
 
 
 STRICT_SITES = (4, 5, 6, 7, 8, 9, 13, 14)   # C05_rounded_panic_classes: strictly-signed constrained quantities
 
 
 def classify_panic(loc):
-    """class of an implementation panic, from its source location / message.  "eff-cent-zero" is no
-    longer a known class (fixed, see known-findings.d/C05.json): a panic classified so is reported
-    as a violation because the id is not among the known findings any more"""
+    """class of an implementation panic, from its source location / message.  "eff-cent-zero" and
+    "split-residue-assert" are no longer known classes (fixed, see known-findings.d/C05.json): a panic
+    classified so is reported as a violation because the id is not among the known findings any more"""
     if "math.rs:93" in loc or ("does not match constraints" in loc and " 0.00" in loc and "Neg" in loc):
         return "eff-cent-zero"
-    if "portfolio_status.rs:100" in loc:
+    if "portfolio_status.rs:100" in loc or "!= expected_all_share_bal" in loc:
         return "split-residue-assert"
     if "overflowed" in loc or "Overflow" in loc:
         return "decimal-overflow"
@@ -173,6 +175,12 @@ def run(res, ctx):
             k_ = rng.random()
             if k_ < 0.04:
                 cases.append({"rows": underflow_history(rng), "inits": {}})
+            elif k_ < 0.14:
+                # a split with a non-terminating factor, then Buy / Sell rows of one or several affiliates:
+                # 28-digit balances through the all-affiliate expression and the tracker's assertion
+                # (C05_status_assertion_cannot_fail; the former class split-residue-assert)
+                cases.append({"rows": residuegen.residue_history(rng), "inits": {}})
+                st["residue-histories"] += 1
             elif k_ < 0.5:
                 cases.append({"rows": extreme_history(rng), "inits": {}})
             else:
@@ -404,7 +412,8 @@ def run(res, ctx):
                 res.violation("failing-input", "etrade-plan-pdf-tx-extract %s on a damaged %s confirmation: %s %s" % (" ".join(args), kind, status, info[:300]),
                               {"program": "etrade-plan-pdf-tx-extract", "args": args, "input": content.decode("utf-8", "replace"), "actual_impl": info})
     # ---- fixed findings: the old witnesses are regression cases that must now be ACCEPTED; the
-    # witness of eff-cent-zero also as model rows, with the rows the model reports (rounded and exact)
+    # witnesses of eff-cent-zero and split-residue-assert also as model rows, with the rows the model
+    # reports (rounded; for eff-cent-zero also exact)
     import datetime
     for k in load_fixed("C05"):
         w = k.get("witness", {})
@@ -419,11 +428,46 @@ def run(res, ctx):
                  "com": None, "cur": None, "rate": None, "af": None},
                 {"sec": "FOO", "td": day(2020, 1, 10), "sd": day(2020, 1, 12), "act": "Sell", "sh": core.D(5, 1), "aps": core.D(1),
                  "com": None, "cur": None, "rate": None, "af": None}]})
+        if name == "split-residue-assert":
+            # the old witness and the smallest history of the defect as model rows: accepted, every row
+            # reported, rows as the model's (rounded), the all-affiliate balance EQUAL to the single
+            # affiliate's on every row (C05_split_residue_witness_accepted)
+            day = lambda y, m_, d_: datetime.date(y, m_, d_).toordinal()
+            def _w(y, m_, d_, act, **kw):
+                x = {"sec": "FOO", "td": day(y, m_, d_), "sd": day(y, m_, d_), "act": act, "com": None, "cur": None, "rate": None, "af": None}
+                x.update(kw)
+                return x
+            cases.append({"inits": {}, "rows": [
+                _w(2019, 4, 5, "Buy", sh=core.D(8532706, 4), aps=core.D(244231, 2), cur="USD", rate=core.D(11251, 4), af="B"),
+                _w(2019, 6, 4, "Split", split=("1.0", "3.0"))]})
+            cases.append({"inits": {}, "rows": [
+                _w(2020, 1, 2, "Buy", sh=core.D(10), aps=core.D(1)),
+                _w(2020, 2, 3, "Split", split=("4", "3")),
+                _w(2020, 3, 2, "Buy", sh=core.D(1), aps=core.D(1))]})
+            cases.append({"inits": {}, "rows": [
+                _w(2020, 1, 2, "Buy", sh=core.D(10), aps=core.D(1)),
+                _w(2020, 2, 3, "Split", split=("4", "3")),
+                _w(2020, 3, 2, "Sell", sh=core.D(1), aps=core.D(2)),
+                _w(2020, 3, 20, "RoC", aps=core.D(1, 2)),
+                _w(2020, 4, 2, "Buy", sh=core.D(25, 1), aps=core.D(1))]})
         for n_, r in enumerate(corecheck.run_cases(ctx, cases, want_exact=True)):
             st["evaluations"] += 1
             st["fixed-witness-replayed"] += 1
             i, m, mx = r["impl"], r["dec"], r["exact"]
             bad = None
+            if name == "split-residue-assert" and n_ >= 1 and i["status"] == "ok" and all(sc["stop"][0] == 0 for sc in i["secs"].values()):
+                d = core.diff_exact(m, i)
+                rows = [dl for sc in i["secs"].values() for dl in sc["deltas"]]
+                if d is not None:
+                    bad = "the witness of the fixed finding %s: model and implementation differ: %s" % (name, d)
+                elif len(rows) != len(r["case"]["rows"]):
+                    bad = "the witness of the fixed finding %s is accepted with %d rows, %d expected" % (name, len(rows), len(r["case"]["rows"]))
+                elif any(dl["post"][0] != dl["post"][1] for dl in rows):
+                    bad = "the witness of the fixed finding %s: the all-affiliate balance differs from the single affiliate's balance: %s" % (
+                        name, [(str(dl["post"][0]), str(dl["post"][1])) for dl in rows if dl["post"][0] != dl["post"][1]][:2])
+                if bad:
+                    res.violation("failing-input", bad, {"input": r["hc"], "actual_impl": str(r["raw"])[:1500], "model": str(m)[:600]})
+                continue
             if i["status"] == "panic":
                 bad = "the witness of the fixed finding %s panics again: %s" % (name, i["panic"][:300])
             elif i["status"] != "ok" or any(sc["stop"][0] != 0 for sc in i["secs"].values()):
